@@ -69,14 +69,6 @@ theorem offsets_of_indices (R C tr tc : Int) (hr : 1 ≤ tr) (hc : 1 ≤ tc) (hR
   have e2 : i + 1 - 1 = i := by omega
   rw [e1, e2, Int.mul_comm j tc, Int.mul_comm i tr, Int.add_comm (tc * j) 1, Int.add_comm (tr * i) 1]
 
-theorem flatMap_const_length {β γ} (xs : List β) (f : β → List γ) (n : Nat) (h : ∀ x ∈ xs, (f x).length = n) :
-    (xs.flatMap f).length = xs.length * n := by
-  induction xs with
-  | nil => simp
-  | cons x xs ih =>
-    rw [List.flatMap_cons, List.length_append, h x (by simp), ih (fun y hy => h y (by simp [hy])), List.length_cons, Nat.succ_mul]
-    omega
-
 /-- **tile count**: `⌈R / tile rows⌉ · ⌈C / tile columns⌉` tiles -/
 theorem gridPos_length (R C tr tc : Int) (hr : 1 ≤ tr) (hc : 1 ≤ tc) (hR : 1 ≤ R) (hC : 1 ≤ C) :
     ((gridPos R C tr tc).length : Int) = nTiles R tr * nTiles C tc := by
@@ -406,6 +398,24 @@ theorem predicate_iff (ps : List (Int × Int)) (tr tc : Int) (hr : 1 ≤ tr) (hc
       simp only [List.foldl_nil]
       rw [gridList_nil _ _ tr tc (Or.inl (count_from_empty tr hr))]
 
+/-- the test relative to a given matrix: for a list that contains the last tile of the `R × C` matrix and nothing beyond it,
+the answer is True iff the list is the complete row-major grid of that matrix -/
+theorem predicate_for_matrix (ps : List (Int × Int)) (R C tr tc : Int) (hr : 1 ≤ tr) (hc : 1 ≤ tc) (hR : 1 ≤ R) (hC : 1 ≤ C)
+    (hlast : (1 + tr * (nTiles R tr - 1), 1 + tc * (nTiles C tc - 1)) ∈ ps)
+    (hin : ∀ p ∈ ps, p.1 ≤ 1 + tr * (nTiles R tr - 1) ∧ p.2 ≤ 1 + tc * (nTiles C tc - 1)) :
+    arePlanePositionsTiledFull ps tr tc = .ok true ↔ ps = gridPos R C tr tc := by
+  rw [arePlanePositionsTiledFull_eq ps tr tc hr hc]
+  have n1 := nTiles_pos R tr hR hr
+  have n2 := nTiles_pos C tc hC hc
+  have p1 := Int.mul_nonneg (show 0 ≤ tr by omega) (show 0 ≤ nTiles R tr - 1 by omega)
+  have p2 := Int.mul_nonneg (show 0 ≤ tc by omega) (show 0 ≤ nTiles C tc - 1 by omega)
+  have m1 : ps.foldl (fun m p => max m p.1) (-1) = 1 + tr * (nTiles R tr - 1) :=
+    foldl_max_eq (fun p : Int × Int => p.1) ps _ _ (fun p hp => (hin p hp).1) (by omega) ⟨_, hlast, rfl⟩
+  have m2 : ps.foldl (fun m p => max m p.2) (-1) = 1 + tc * (nTiles C tc - 1) :=
+    foldl_max_eq (fun p : Int × Int => p.2) ps _ _ (fun p hp => (hin p hp).2) (by omega) ⟨_, hlast, rfl⟩
+  rw [m1, m2, count_from_max tr _ hr, count_from_max tc _ hc, ← gridPos_eq_gridList]
+  simp only [Except.ok.injEq, decide_eq_true_eq]
+
 /-- never an error for positive tile sizes -/
 theorem predicate_total (ps : List (Int × Int)) (tr tc : Int) (hr : 1 ≤ tr) (hc : 1 ≤ tc) :
     ∃ b, arePlanePositionsTiledFull ps tr tc = .ok b := ⟨_, arePlanePositionsTiledFull_eq ps tr tc hr hc⟩
@@ -454,6 +464,7 @@ theorem pasteFold_spec {α} (z : α) (M : Img α) (R C tr tc : Int) (hr : 1 ≤ 
           then t (i - (o.2 - 1)) (j - (o.1 - 1)) else out0 i j) := by
         unfold pasteStep
         simp only [ht]
+        rw [if_neg (by rw [getTileShape_spec R C o.2 o.1 tr tc hr hc v1 v2 v3 v4]; simp)]
       rw [this]
       exact hout
     · intro i j
@@ -528,37 +539,6 @@ theorem offsets_cover_once (R C tr tc : Int) (hr : 1 ≤ tr) (hc : 1 ≤ tc) (hR
 
 
 /-! ## Frame number of a TILED_FULL image ↔ tile -/
-
-/-- element `a·n + b` of a concatenation of chunks of length `n` is element `b` of chunk `a` -/
-theorem flatMap_getElem_const {β γ} (f : β → List γ) (n : Nat) : ∀ (xs : List β) (a b : Nat) (x : β),
-    (∀ y ∈ xs, (f y).length = n) → b < n → xs[a]? = some x → (xs.flatMap f)[a * n + b]? = (f x)[b]? := by
-  intro xs
-  induction xs with
-  | nil => intro a b x _ _ hx; simp at hx
-  | cons y ys ih =>
-    intro a b x hlen hb hx
-    rw [List.flatMap_cons]
-    cases a with
-    | zero =>
-      simp only [List.getElem?_cons_zero, Option.some.injEq] at hx
-      subst hx
-      rw [Nat.zero_mul, Nat.zero_add, List.getElem?_append_left (by rw [hlen y (by simp)]; exact hb)]
-    | succ a =>
-      simp only [List.getElem?_cons_succ] at hx
-      have e : (a + 1) * n + b = (f y).length + (a * n + b) := by
-        rw [hlen y (by simp), Nat.succ_mul]; omega
-      rw [e, List.getElem?_append_right (by omega)]
-      have : (f y).length + (a * n + b) - (f y).length = a * n + b := by omega
-      rw [this]
-      exact ih a b x (fun z hz => hlen z (by simp [hz])) hb hx
-
-theorem iota_getElem (n : Int) (k : Nat) (hk : (k : Int) < n) : (iota n)[k]? = some (k : Int) := by
-  unfold iota
-  rw [List.getElem?_map, List.getElem?_range (by omega)]
-  rfl
-
-theorem iota_length_nat (n : Int) : (iota n).length = n.toNat := by
-  unfold iota; simp
 
 /-- **frame number ↔ (channel, focal plane, tile row, tile column)**: the position `_get_spatial_information` (hence every
 `*Transformer.for_image(image, frame_number=k)`) reports for frame
